@@ -3,6 +3,10 @@ import LeptosModel.Proofs.ViewEqns
 namespace Leptos.View
 open Leptos.Dom
 
+-- `R`: how the attribute list of an element relates to the fresh render's (`Eq` for the static
+-- fragment, lookup-equality `AttrsEq` where removal and re-insertion change the order)
+variable {R : List (String × String) → List (String × String) → Prop}
+
 theorem wfList_get : ∀ (ts : List Ty) (i : Nat) (t : Ty), Ty.wfList ts = true → ts[i]? = some t →
     t.wf = true
   | [], i, t, _, h => by simp at h
@@ -44,7 +48,7 @@ end
 mutual
 /-- a mounted state of a well-formed type has at least one root node -/
 theorem roots_ne_nil {d : Dom} : ∀ (a : View) (ty : Ty) (st : State) (par : Option Id),
-    ty.wf = true → hasTy a ty = true → Rep d a st par → st.roots ≠ []
+    ty.wf = true → hasTy a ty = true → Rep R d a st par → st.roots ≠ []
   | .text _, ty, st, par, _, _, h => by cases st <;> simp [Rep, State.roots] at h ⊢
   | .unit, ty, st, par, _, _, h => by cases st <;> simp [Rep, State.roots] at h ⊢
   | .elem _ _ _, ty, st, par, _, _, h => by cases st <;> simp [Rep, State.roots] at h ⊢
@@ -82,7 +86,7 @@ theorem roots_ne_nil {d : Dom} : ∀ (a : View) (ty : Ty) (st : State) (par : Op
     exact rootsList_ne_nil vs ts _ par hw.2 ht hw.1 h
 theorem rootsList_ne_nil {d : Dom} : ∀ (as : List View) (ts : List Ty) (sts : List State)
     (par : Option Id), Ty.wfList ts = true → hasTyList as ts = true → ts ≠ [] →
-    RepList d as sts par → State.rootsList sts ≠ []
+    RepList R d as sts par → State.rootsList sts ≠ []
   | [], ts, sts, par, _, ht, hne, _ => by cases ts <;> simp [hasTyList] at ht hne
   | v :: vs, ts, sts, par, hw, ht, _, h => by
     cases ts with
@@ -99,11 +103,11 @@ end
 
 /-- what rebuilding attribute values `as` into `bs` must achieve on the element (semantic
 condition on a pair of attribute lists; proved for each stage's attribute fragment) -/
-def AttrsRebuild (as bs : List AttrVal) : Prop :=
+def AttrsRebuild (R : List (String × String) → List (String × String) → Prop) (as bs : List AttrVal) : Prop :=
   ∀ (er : Bool) (d : Dom) (el : Id) (r : NodeRec), d.get? el = some r → r.kind.isElem = true →
-    r.attrs = renderAttrs as →
+    R r.attrs (renderAttrs as) →
     (∃ r', (rebuildAttrs er el bs (as.map AttrVal.initState) d).1.get? el = some r' ∧
-      r'.attrs = renderAttrs bs ∧
+      R r'.attrs (renderAttrs bs) ∧
       r'.kind = r.kind ∧ r'.parent = r.parent ∧ r'.kids = r.kids ∧ r'.data = r.data) ∧
     (∀ y, y ≠ el → (rebuildAttrs er el bs (as.map AttrVal.initState) d).1.get? y = d.get? y) ∧
     (rebuildAttrs er el bs (as.map AttrVal.initState) d).1.next = d.next ∧
